@@ -347,3 +347,36 @@ B('e_linecache_key_without_hash', ['C11'], 'R11.d',
   (S, '    unique_filename = "<sinter generated %s %s>" % (name, code_hash)', '    unique_filename = "<sinter generated %s %s>" % (name, len(code_str))'))
 T('e_add_index_reassigned', ['C11'],
   (A, '            self.routes.insert(index, br)\n            index += 1\n', '            self.routes.insert(index, br)\n            index = index + 1\n'))
+
+# ---- third batch
+T('e_flags_packed_and_unpacked', ['C10', 'C11'],
+  (R, "        prefix = kwargs.pop('prefix', '')\n        rebind_render = kwargs.pop('rebind_render', True)\n",
+      "        prefix_ = kwargs.pop('prefix', '')\n        rebind_render_ = kwargs.pop('rebind_render', True)\n"),
+  (R, "        if kwargs:\n            raise TypeError('unexpected keyword args: %r' % kwargs.keys())\n\n        self.pattern = prefix + route.pattern",
+      "        if kwargs:\n            raise TypeError('unexpected keyword args: %r' % kwargs.keys())\n"
+      "        flags = (prefix_, rebind_render_)\n        prefix, rebind_render = flags\n\n        self.pattern = prefix + route.pattern"))
+T('e_bind_all_get_default', ['C10', 'C11'],
+  (A, "        kwargs['prefix'] = self.prefix\n        kwargs.setdefault('rebind_render', self.rebind_render)\n"
+      "        kwargs.setdefault('inherit_slashes', self.inherit_slashes)\n",
+      "        kwargs.setdefault('inherit_slashes', self.inherit_slashes)\n        bind_kwargs = dict(kwargs, prefix=self.prefix)\n"
+      "        bind_kwargs['rebind_render'] = kwargs.get('rebind_render', self.rebind_render)\n"),
+  (A, '            bound_rt = rt.bind(app, **kwargs)\n            ret.append(bound_rt)', '            bound_rt = rt.bind(app, **bind_kwargs)\n            ret.append(bound_rt)'))
+B('e_bind_all_get_default_of_other_key', ['C10'], 'R10.e',
+  (A, "        kwargs['prefix'] = self.prefix\n        kwargs.setdefault('rebind_render', self.rebind_render)\n"
+      "        kwargs.setdefault('inherit_slashes', self.inherit_slashes)\n",
+      "        kwargs.setdefault('inherit_slashes', self.inherit_slashes)\n        bind_kwargs = dict(kwargs, prefix=self.prefix)\n"
+      "        bind_kwargs['rebind_render'] = kwargs.get('inherit_slashes', self.rebind_render)\n"),
+  (A, '            bound_rt = rt.bind(app, **kwargs)\n            ret.append(bound_rt)', '            bound_rt = rt.bind(app, **bind_kwargs)\n            ret.append(bound_rt)'))
+T('e_routes_reset_in_ctor_helper', ['C11'],
+  (A, '        routes = routes or []\n        self.routes = []\n        self._null_route = NullRoute().bind(self)\n        for entry in routes:\n            self.add(entry)\n',
+      '        self._init_routes(routes or [])\n'),
+  (A, '    def set_error_handler(self, error_handler=None):\n',
+      '    def _init_routes(self, entries):\n        self.routes = []\n        self._null_route = NullRoute().bind(self)\n'
+      '        for entry in entries:\n            self.add(entry)\n\n    def set_error_handler(self, error_handler=None):\n'))
+B('e_routes_reset_helper_called_from_add', ['C11'], 'R11',
+  (A, '        routes = routes or []\n        self.routes = []\n        self._null_route = NullRoute().bind(self)\n        for entry in routes:\n            self.add(entry)\n',
+      '        self._init_routes(routes or [])\n'),
+  (A, '    def set_error_handler(self, error_handler=None):\n',
+      '    def _init_routes(self, entries):\n        self.routes = []\n        self._null_route = NullRoute().bind(self)\n'
+      '        for entry in entries:\n            self.add(entry)\n\n    def set_error_handler(self, error_handler=None):\n'),
+  (A, '        check_render_error(error_handler.render_error, self.resources)\n', '        check_render_error(error_handler.render_error, self.resources)\n        if not self.debug and error_handler is None:\n            self._init_routes([])\n'))
